@@ -80,3 +80,97 @@ func verifHarnessC20Apply() {
 	}
 	reach("end")
 }
+
+// ---------- tag parsing on a fixed family of struct shapes (values stay symbolic) ----------
+
+type verifBin struct{ got []byte }
+
+func (b *verifBin) UnmarshalBinary(p []byte) error {
+	b.got = append([]byte(nil), p...)
+	return nil
+}
+
+type verifInner struct {
+	E string `setec:"embedded"`
+}
+
+type verifShapeOK struct {
+	B    []byte    `setec:"b"`
+	Skip int       // untagged
+	S    string    `setec:"s"`
+	H    Secret    `setec:"h"`
+	U    verifBin  `setec:"u"`
+	P    *verifBin `setec:"p"`
+	verifInner
+	other int `json:"other"`
+}
+
+type verifShapeBadType struct {
+	N int `setec:"n"`
+}
+type verifShapeEmptyName struct {
+	A []byte `setec:""`
+}
+type verifShapeEmptyNameVerb struct {
+	A []byte            `setec:"a"`
+	J map[string]string `setec:",json"`
+}
+type verifShapeNoTags struct {
+	A []byte
+}
+
+func verifHarnessC20Parse() {
+	verifEnvReset()
+	switch nondetChoice("shape", 7) {
+	case 0:
+		_, err := ParseFields(&verifShapeBadType{}, "pfx")
+		assert("unsupported-field-type-rejected", err != nil)
+	case 1:
+		_, err := ParseFields(&verifShapeEmptyName{}, "pfx")
+		assert("empty-name-rejected", err != nil)
+	case 2:
+		_, err := ParseFields(&verifShapeEmptyNameVerb{}, "pfx")
+		assert("empty-name-with-verb-rejected", err != nil)
+	case 3:
+		_, err := ParseFields(&verifShapeNoTags{}, "pfx")
+		assert("no-tagged-fields-rejected", err != nil)
+	case 4:
+		_, err := ParseFields(verifShapeOK{}, "pfx")
+		assert("non-pointer-rejected", err != nil)
+	case 5:
+		n := 3
+		_, err := ParseFields(&n, "pfx")
+		assert("non-struct-rejected", err != nil)
+	case 6:
+		var t verifShapeOK
+		t.Skip = 7
+		f, err := ParseFields(&t, "pfx")
+		assert("supported-shape-accepted", and(err == nil, f != nil))
+		names := f.Secrets()
+		assert("requested-names-are-prefix-slash-name-per-tagged-field", and(len(names) == 6,
+			names[0] == "pfx/b", names[1] == "pfx/s", names[2] == "pfx/h", names[3] == "pfx/u", names[4] == "pfx/p", names[5] == "pfx/embedded"))
+		// populate from a store holding arbitrary values
+		client := &verifClient{}
+		s := &Store{client: client, logf: verifLogf, timeNow: verifTimeNow}
+		s.active.m = map[string]*cachedSecret{}
+		s.active.f = map[string]Secret{}
+		s.active.w = map[string][]watcher{}
+		vals := map[string][]byte{}
+		for _, nm := range names {
+			vals[nm] = nondetSeq("val")
+			s.active.m[nm] = &cachedSecret{Secret: &api.SecretValue{Value: vals[nm], Version: 1}}
+		}
+		vals = snapshot(vals)
+		aerr := f.Apply(verifBackground(), s)
+		assert("apply-ok", aerr == nil)
+		assert("bytes", bytesEq(t.B, vals["pfx/b"]))
+		assert("string", t.S == string(vals["pfx/s"]))
+		assert("handle", and(t.H != nil, bytesEq(t.H.Get(), vals["pfx/h"])))
+		assert("binary-unmarshaler-value", bytesEq(t.U.got, vals["pfx/u"]))
+		assert("binary-unmarshaler-pointer-allocated", and(t.P != nil, bytesEq(t.P.got, vals["pfx/p"])))
+		assert("embedded-field", t.E == string(vals["pfx/embedded"]))
+		assert("untagged-untouched", and(t.Skip == 7, t.other == 0))
+		assert("no-request", client.requests == 0)
+	}
+	reach("end")
+}
